@@ -2937,32 +2937,146 @@ Proof.
   discriminate.
 Qed.
 
-(* Soundness, generic in [strict]; Gg is the global frame of the program *)
-Theorem soundness_generic P :
-  wt_top P = Some Gg ->
-  forallb (wt_func (p_funcs P) Gg) (p_funcs P) = true ->
-  s1_stmts strict (p_stmts P) = true -> forallb (s1_func strict) (p_funcs P) = true ->
-  forall fuel s0, state_ok s0 -> ~ goes_wrong_s (fst (run_program fuel P s0)).
+(* the program is checked against Gg and lies in the fragment *)
+Definition prog_ok (P : program) : Prop :=
+  wt_top P = Some Gg /\
+  forallb (wt_func (p_funcs P) Gg) (p_funcs P) = true /\
+  s1_stmts strict (p_stmts P) = true /\ forallb (s1_func strict) (p_funcs P) = true.
+
+Lemma prog_genv_ok P : prog_ok P -> genv_ok P genv0.
 Proof.
-  intros Htop Hfs Hs1 Hs1f fuel s0 (S & Hi) Hbad.
+  intros (_ & Hfs & _ & Hs1f). split; [reflexivity|split; [reflexivity|]]. intros fd Hfd.
+  rewrite forallb_forall in Hfs, Hs1f. auto.
+Qed.
+
+Lemma state_ok_of S G e s : heap_ok S (st_heap s) -> env_ok S G e (st_globals s) -> state_ok s.
+Proof.
+  intros Hh He. exists S. split; auto. constructor; [exact HGg|eapply env_ok_globals; eauto].
+Qed.
+
+(* Soundness with the final state: a run ends with a safe outcome, and when it ends normally the state
+   it leaves (on which the event handlers then run) is again well typed *)
+Theorem run_generic P : prog_ok P ->
+  forall fuel s0, state_ok s0 ->
+    match run_program fuel P s0 with
+    | (OErr e, _) => safe_err e
+    | (_, s1) => state_ok s1
+    end.
+Proof.
+  intros HP fuel s0 (S & Hi). pose proof (prog_genv_ok P HP) as HG. destruct HP as (Htop & Hfs & Hs1 & Hs1f).
   assert (Htop' : wt_stmts (p_funcs P) None false genv0 (p_stmts P) = Some [Gg]).
   { unfold wt_top, genv0 in *.
     destruct (wt_stmts (p_funcs P) None false [global_frame0] (p_stmts P)) as [[|g [|]]|]; try discriminate.
     inversion Htop; subst; auto. }
-  assert (HG : genv_ok P genv0).
-  { split; [reflexivity|split; [reflexivity|]]. intros fd Hfd.
-    rewrite forallb_forall in Hfs, Hs1f. auto. }
   destruct (all_sound_n fuel) as (_ & _ & _ & _ & Hstmts & _).
   assert (W : wp ((let* _ := tick in let* _ := exec_stmts fuel P [] (p_stmts P) in Sem.ret tt) s0)
-                 (fun _ _ => True)).
+                 (fun _ s' => state_ok s')).
   { apply wp_bind. eapply tick_inv; [exact Hi|]. intros s1 Hi1.
     wbind ltac:(eapply (Hstmts P None false [] (p_stmts P) genv0 [Gg] S); eauto).
     - intros n t H; exact H.
-    - intros r s2 _. exact I. }
-  unfold run_program in Hbad.
+    - intros r s2 (S2 & G2 & _ & Hh2 & _ & He2 & _). apply wp_ret. eapply state_ok_of; eauto. }
+  unfold run_program.
   destruct ((let* _ := tick in let* _ := exec_stmts fuel P [] (p_stmts P) in Sem.ret tt) s0) as [[u|er] s1].
-  - simpl in Hbad. destruct (Nat.ltb 0 (st_fails (test_report s1))); exact Hbad.
-  - simpl in W, Hbad. destruct er; simpl in *; auto.
+  - simpl in W. assert (state_ok (test_report s1)).
+    { destruct W as (S1 & Hh1 & He1). exists S1. unfold test_report.
+      destruct (Nat.eqb (st_total s1) 0); split; auto. }
+    destruct (Nat.ltb 0 (st_fails (test_report s1))); auto.
+  - simpl in W. destruct er; simpl in *; auto.
+Qed.
+
+Theorem soundness_generic P : prog_ok P ->
+  forall fuel s0, state_ok s0 -> ~ goes_wrong_s (fst (run_program fuel P s0)).
+Proof.
+  intros HP fuel s0 Hs0 Hbad. pose proof (run_generic P HP fuel s0 Hs0) as H.
+  destruct (run_program fuel P s0) as [[| |er] s1]; simpl in *; auto.
+Qed.
+
+(* ---------- event handlers ---------- *)
+Lemma bind_payload_ok : forall ps args sf fr S s,
+  heap_ok S (st_heap s) -> (List.length ps <= List.length args)%nat ->
+  frame_ok S sf fr ->
+  Forall (fun p => nz p = true -> sget (fst p) sf = None) ps ->
+  names_distinct (map fst ps) = true ->
+  wp (bind_payload ps args fr s)
+     (fun fr' s' => exists S', ext S S' /\ heap_ok S' (st_heap s') /\ st_globals s' = st_globals s /\
+                               frame_ok S' (rev (filter nz ps) ++ sf) fr').
+Proof.
+  induction ps as [|[n t] ps IH]; intros args sf fr S s Hh Hlen Hfr Hfresh Hd.
+  - simpl. exists S; split; [apply ext_refl|auto].
+  - cbn [bind_payload]. destruct args as [|a args]; [simpl in Hlen; lia|]. simpl in Hlen.
+    simpl in Hd. apply andb_true_iff in Hd as [Hd1 Hd2]. inversion Hfresh as [|? ? Hf1 Hf2]; subst.
+    assert (K : forall v, cell_ok S v t -> ty_ok1 t = true ->
+              wp ((let* l := alloc v in
+                   bind_payload ps args (if str_eqb n underscore then fr else frame_set n l fr)) s)
+                 (fun fr' s' => exists S', ext S S' /\ heap_ok S' (st_heap s') /\ st_globals s' = st_globals s /\
+                                           frame_ok S' (rev (filter nz ((n, t) :: ps)) ++ sf) fr')).
+    { intros v Hv Hok.
+      wbind ltac:(eapply alloc_wp; eauto). intros l s1 (S1 & E1 & Hh1 & Hl1 & Hg1).
+      simpl. unfold nz at 1. simpl. destruct (str_eqb n underscore) eqn:En; simpl.
+      - eapply wp_mono; [eapply (IH args sf fr S1 s1); eauto using frame_ok_ext; lia|].
+        cbv beta. intros fr' s' (S' & E' & Hh' & Hg' & Hf'). hdone S'.
+      - eapply wp_mono; [eapply (IH args ((n, t) :: sf) (frame_set n l fr) S1 s1); eauto; try lia|].
+        + apply frame_ok_decl; eauto using frame_ok_ext. apply Hf1. unfold nz; simpl. rewrite En. reflexivity.
+        + rewrite Forall_forall in Hf2 |- *. intros [k tk] Hin Hk. simpl.
+          destruct (str_eqb n k) eqn:Enk.
+          * apply str_eqb_eq in Enk; subst k. exfalso.
+            apply negb_true_iff in Hd1. assert (Hin' : In n (map fst ps)) by (apply in_map_iff; exists (n, tk); auto).
+            apply mem_str_In in Hin'. congruence.
+          * apply (Hf2 _ Hin Hk).
+        + cbv beta. intros fr' s' (S' & E' & Hh' & Hg' & Hf'). rewrite <- app_assoc. hdone S'. }
+    unfold bindM at 1.
+    destruct t; destruct a; try exact I.
+    + apply (K (HNum f)); [constructor|auto].
+    + apply (K (HStr s0)); [constructor|auto].
+    + apply (K (HBool b)); [constructor|auto].
+Qed.
+
+Theorem handle_event_generic P : prog_ok P ->
+  forallb (wt_handler (p_funcs P) Gg) (p_handlers P) = true ->
+  forallb (fun h => s1_stmts strict (h_body h)) (p_handlers P) = true ->
+  forall fuel name args s0 h, state_ok s0 ->
+    find_handler name (p_handlers P) = Some h -> (List.length (h_params h) <= List.length args)%nat ->
+    match handle_event fuel P name args s0 with
+    | (OErr e, _) => safe_err e
+    | (_, s1) => state_ok s1
+    end.
+Proof.
+  intros HP Hwh Hsh fuel name args s0 h (S & [Hh He]) Hfind Hlen.
+  pose proof (prog_genv_ok P HP) as (_ & _ & HF0).
+  assert (Hin : In h (p_handlers P)).
+  { clear -Hfind. induction (p_handlers P) as [|x l IH]; simpl in *; [discriminate|].
+    destruct (str_eqb (h_name x) name); [inversion Hfind; auto|auto]. }
+  rewrite forallb_forall in Hwh, Hsh. specialize (Hwh _ Hin). specialize (Hsh _ Hin).
+  unfold wt_handler in Hwh. destruct (assoc_str (h_name h) event_sigs) as [ts|]; [|discriminate].
+  repeat match type of Hwh with _ && _ = true => apply andb_true_iff in Hwh as [Hwh ?] end.
+  match goal with H : is_some (wt_stmts _ _ _ _ (h_body h)) = true |- _ => rename H into Hbody end.
+  match goal with H : forallb param_ok _ = true |- _ => rename H into Hpok end.
+  match goal with H : names_distinct _ = true |- _ => rename H into Hnd end.
+  set (pf := params_frame (h_params h)) in *.
+  destruct (wt_stmts (p_funcs P) (Some TNone) false [pf; Gg] (h_body h)) as [Gb|] eqn:EGb; [|discriminate].
+  destruct (all_sound_n fuel) as (_ & _ & _ & _ & _ & Hblock & _).
+  unfold handle_event. rewrite Hfind.
+  assert (W : wp ((let* fr := bind_payload (h_params h) args [] in
+                   let* _ := exec_block fuel P [fr] (h_body h) in Sem.ret tt) s0)
+                 (fun _ s' => state_ok s')).
+  { wbind ltac:(eapply (bind_payload_ok (h_params h) args [] [] S s0); eauto).
+    - split; simpl; intros; discriminate.
+    - rewrite Forall_forall. intros; reflexivity.
+    - intros fr s1 (S1 & E1 & Hh1 & Hg1 & Hfr). rewrite app_nil_r in Hfr.
+      assert (Hgl : globals_ok S1 (st_globals s1)).
+      { rewrite Hg1. eapply globals_ok_ext; eauto. eapply env_ok_globals; eauto. }
+      assert (Hi1 : inv S1 [pf; Gg] [fr] s1).
+      { split; auto. constructor; auto. constructor; auto. intros k u Hk; exact Hk. }
+      assert (HG1 : genv_ok P [pf; Gg]).
+      { split; [|split; auto]; simpl.
+        - subst pf. rewrite params_frame_not_reserved; auto. rewrite (HGg n_err TBool eq_refl). reflexivity.
+        - subst pf. rewrite params_frame_not_reserved; auto. rewrite (HGg n_errmsg TStr eq_refl). reflexivity. }
+      assert (Hgs : gsub Gb).
+      { apply wt_stmts_grows in EGb; [|discriminate]. apply grows_inv in EGb as (sf & -> & _). exact I. }
+      wbind ltac:(eapply (Hblock P (Some TNone) false [fr] (h_body h) [pf; Gg] Gb S1); eauto).
+      intros r s2 (S2 & G2 & _ & Hh2 & _ & He2 & _). apply wp_ret. eapply state_ok_of; eauto. }
+  destruct ((let* fr := bind_payload (h_params h) args [] in
+             let* _ := exec_block fuel P [fr] (h_body h) in Sem.ret tt) s0) as [[u|er] s1]; simpl in *; auto.
 Qed.
 
 (* Preservation, Stage 1: under a store typing S that types the heap and the
@@ -3024,10 +3138,11 @@ Definition start_ok (strict : bool) (P : program) (s : state) : Prop :=
   exists g, wt_top P = Some g /\ state_ok strict g s.
 
 Lemma wt_program_inv P : wt_program P = true ->
-  exists g, wt_top P = Some g /\ forallb (wt_func (p_funcs P) g) (p_funcs P) = true.
+  exists g, wt_top P = Some g /\ forallb (wt_func (p_funcs P) g) (p_funcs P) = true /\
+            forallb (wt_handler (p_funcs P) g) (p_handlers P) = true.
 Proof.
   unfold wt_program. destruct (wt_top P) as [g|]; [|discriminate].
-  intros H. apply andb_true_iff in H as [H _]. eauto.
+  intros H. apply andb_true_iff in H as [H1 H2]. eauto.
 Qed.
 
 Lemma init_state_start_ok strict P stop input ff ay :
@@ -3037,34 +3152,114 @@ Proof.
   apply init_state_ok. eapply wt_top_extends; eauto.
 Qed.
 
-Lemma soundness_inst strict P :
-  wt_program P = true -> s1_stmts strict (p_stmts P) && forallb (s1_func strict) (p_funcs P) = true ->
-  forall fuel s0, start_ok strict P s0 -> ~ goes_wrong_s strict (fst (run_program fuel P s0)).
+(* the fragment predicate of a whole program (s1_program = frag true, s2_program = frag false) *)
+Definition frag (strict : bool) (P : program) : bool :=
+  s1_stmts strict (p_stmts P) && forallb (s1_func strict) (p_funcs P)
+  && forallb (fun h => s1_stmts strict (h_body h)) (p_handlers P).
+
+Definition safe_outcome (strict : bool) (o : outcome) : Prop :=
+  match o with OErr e => safe_err strict e | _ => True end.
+
+(* a run from a well-typed start state ends safely and, when it ends normally, leaves a well-typed state *)
+Lemma run_inst strict P :
+  wt_program P = true -> frag strict P = true ->
+  forall fuel s0, start_ok strict P s0 ->
+    safe_outcome strict (fst (run_program fuel P s0)) /\
+    (forall e, fst (run_program fuel P s0) <> OErr e) -> start_ok strict P (snd (run_program fuel P s0)).
 Proof.
   intros Hwt Hfr fuel s0 (g & Hg & Hs0).
-  destruct (wt_program_inv P Hwt) as (g' & Hg' & Hf). rewrite Hg in Hg'. inversion Hg'; subst g'.
-  apply andb_true_iff in Hfr as [Hfr1 Hfr2].
-  eapply (soundness_generic strict g (wt_top_extends P g Hg)); eauto.
+  destruct (wt_program_inv P Hwt) as (g' & Hg' & Hf & _). rewrite Hg in Hg'. inversion Hg'; subst g'.
+  unfold frag in Hfr. apply andb_true_iff in Hfr as [Hfr Hfr3]. apply andb_true_iff in Hfr as [Hfr1 Hfr2].
+  assert (HP : prog_ok strict g P) by (repeat split; auto).
+  pose proof (run_generic strict g (wt_top_extends P g Hg) P HP fuel s0 Hs0) as H.
+  destruct (run_program fuel P s0) as [[| |er] s1]; simpl in *.
+  - intros _. exists g; auto.
+  - intros _. exists g; auto.
+  - intros [_ Hn]. exfalso. eapply Hn; eauto.
 Qed.
+
+Lemma run_inst_safe strict P :
+  wt_program P = true -> frag strict P = true ->
+  forall fuel s0, start_ok strict P s0 -> safe_outcome strict (fst (run_program fuel P s0)).
+Proof.
+  intros Hwt Hfr fuel s0 (g & Hg & Hs0).
+  destruct (wt_program_inv P Hwt) as (g' & Hg' & Hf & _). rewrite Hg in Hg'. inversion Hg'; subst g'.
+  unfold frag in Hfr. apply andb_true_iff in Hfr as [Hfr Hfr3]. apply andb_true_iff in Hfr as [Hfr1 Hfr2].
+  assert (HP : prog_ok strict g P) by (repeat split; auto).
+  pose proof (run_generic strict g (wt_top_extends P g Hg) P HP fuel s0 Hs0) as H.
+  destruct (run_program fuel P s0) as [[| |er] s1]; simpl in *; auto.
+Qed.
+
+(* an event delivered to a handler of the program, in a well-typed state, with at least as many
+   payload values as the handler declares parameters *)
+Lemma event_inst strict P :
+  wt_program P = true -> frag strict P = true ->
+  forall fuel name args s0 h, start_ok strict P s0 ->
+    find_handler name (p_handlers P) = Some h -> (List.length (h_params h) <= List.length args)%nat ->
+    safe_outcome strict (fst (handle_event fuel P name args s0)) /\
+    ((forall e, fst (handle_event fuel P name args s0) <> OErr e) ->
+     start_ok strict P (snd (handle_event fuel P name args s0))).
+Proof.
+  intros Hwt Hfr fuel name args s0 h (g & Hg & Hs0) Hfind Hlen.
+  destruct (wt_program_inv P Hwt) as (g' & Hg' & Hf & Hh). rewrite Hg in Hg'. inversion Hg'; subst g'.
+  unfold frag in Hfr. apply andb_true_iff in Hfr as [Hfr Hfr3]. apply andb_true_iff in Hfr as [Hfr1 Hfr2].
+  assert (HP : prog_ok strict g P) by (repeat split; auto).
+  pose proof (handle_event_generic strict g (wt_top_extends P g Hg) P HP Hh Hfr3 fuel name args s0 h Hs0 Hfind Hlen) as H.
+  destruct (handle_event fuel P name args s0) as [[| |er] s1]; simpl in *.
+  - split; auto. intros _. exists g; auto.
+  - split; auto. intros _. exists g; auto.
+  - split; auto. intros Hn. exfalso. eapply Hn; eauto.
+Qed.
+
+Lemma safe_true_not_wrong o : safe_outcome true o -> ~ goes_wrong o.
+Proof. destruct o as [| |er]; simpl; auto. destruct er; simpl; auto. intros [H _]; discriminate. Qed.
+
+Lemma safe_false_not_badly o : safe_outcome false o -> ~ goes_wrong_badly o.
+Proof. destruct o as [| |er]; simpl; auto. destruct er; simpl; auto. intros [_ H]; auto. Qed.
 
 (* Stage 1 (strict fragment: `any` never inside a composite type): no run goes wrong *)
 Theorem soundness_stage1 P :
   wt_program P = true -> s1_program P = true ->
   forall fuel s0, start_ok true P s0 -> ~ goes_wrong (fst (run_program fuel P s0)).
-Proof.
-  intros Hwt Hs1 fuel s0 Hs0 Hbad. apply (soundness_inst true P Hwt Hs1 fuel s0 Hs0).
-  destruct (fst (run_program fuel P s0)) as [| |er]; simpl in *; auto.
-  destruct er; simpl in *; auto. intros [H _]; discriminate.
-Qed.
+Proof. intros Hwt Hs1 fuel s0 Hs0. apply safe_true_not_wrong. apply run_inst_safe; auto. Qed.
 
 (* Stage 2 (every value type): the only way to go wrong is the stack overflow on a cyclic value *)
 Theorem soundness_stage2 P :
   wt_program P = true -> s2_program P = true ->
   forall fuel s0, start_ok false P s0 -> ~ goes_wrong_badly (fst (run_program fuel P s0)).
+Proof. intros Hwt Hs1 fuel s0 Hs0. apply safe_false_not_badly. apply run_inst_safe; auto. Qed.
+
+(* the state a normally ended run leaves is a start state again (for the event handlers) *)
+Theorem run_leaves_start_ok strict P :
+  wt_program P = true -> frag strict P = true ->
+  forall fuel s0, start_ok strict P s0 ->
+    (forall e, fst (run_program fuel P s0) <> OErr e) -> start_ok strict P (snd (run_program fuel P s0)).
+Proof. intros Hwt Hfr fuel s0 Hs0 Hn. apply run_inst; auto. split; [apply run_inst_safe; auto|exact Hn]. Qed.
+
+Theorem handlers_stage1 P :
+  wt_program P = true -> s1_program P = true ->
+  forall fuel name args s0 h, start_ok true P s0 ->
+    find_handler name (p_handlers P) = Some h -> (List.length (h_params h) <= List.length args)%nat ->
+    ~ goes_wrong (fst (handle_event fuel P name args s0)) /\
+    ((forall e, fst (handle_event fuel P name args s0) <> OErr e) ->
+     start_ok true P (snd (handle_event fuel P name args s0))).
 Proof.
-  intros Hwt Hs1 fuel s0 Hs0 Hbad. apply (soundness_inst false P Hwt Hs1 fuel s0 Hs0).
-  destruct (fst (run_program fuel P s0)) as [| |er]; simpl in *; auto.
-  destruct er; simpl in *; auto. intros [_ H]; auto.
+  intros Hwt Hs1 fuel name args s0 h Hs0 Hf Hl.
+  destruct (event_inst true P Hwt Hs1 fuel name args s0 h Hs0 Hf Hl) as [H1 H2].
+  split; auto using safe_true_not_wrong.
+Qed.
+
+Theorem handlers_stage2 P :
+  wt_program P = true -> s2_program P = true ->
+  forall fuel name args s0 h, start_ok false P s0 ->
+    find_handler name (p_handlers P) = Some h -> (List.length (h_params h) <= List.length args)%nat ->
+    ~ goes_wrong_badly (fst (handle_event fuel P name args s0)) /\
+    ((forall e, fst (handle_event fuel P name args s0) <> OErr e) ->
+     start_ok false P (snd (handle_event fuel P name args s0))).
+Proof.
+  intros Hwt Hs1 fuel name args s0 h Hs0 Hf Hl.
+  destruct (event_inst false P Hwt Hs1 fuel name args s0 h Hs0 Hf Hl) as [H1 H2].
+  split; auto using safe_false_not_badly.
 Qed.
 
 (* ---------- typeof ---------- *)
